@@ -113,6 +113,26 @@ func vfC05Gen(rt *rapid.T) vfC05Case {
 	if c.VecKind == "ivf" {
 		c.Train = vfGenTrainingSet(rt, g, 3, 12, kind == Cosine)
 	}
+	// "big score" mode: a couple of distinct, large vectors shared by many documents, so that fused
+	// scores are huge, equal in their vector part and differ only by small text scores
+	big := c.HasVec && rapid.IntRange(0, 5).Draw(rt, "big_scores") == 0
+	var bigPool [][]float32
+	if big {
+		if kind == Cosine {
+			c.Metric = string(L2Squared)
+			kind = L2Squared
+		}
+		for i := 0; i < 2; i++ {
+			v := g.drawNonZero(rt, "big_vec")
+			for j := range v {
+				v[j] = float32(int(v[j]*3+0.5)) * 3000
+			}
+			if vfIsZero(v) {
+				v[0] = 3000
+			}
+			bigPool = append(bigPool, v)
+		}
+	}
 	stored := map[string][]vfMVal{}
 	var metas []map[string]vfMVal
 	var texts []string
@@ -197,6 +217,9 @@ func vfC05Gen(rt *rapid.T) vfC05Case {
 			}
 			if mods&1 != 0 {
 				d.Vec = g.drawNonZero(rt, "dv")
+				if big {
+					d.Vec = vfCloneF32(bigPool[rapid.IntRange(0, len(bigPool)-1).Draw(rt, "big_pick")])
+				}
 			}
 			if mods&2 != 0 {
 				d.Text = vfGenText(rt, "dt", 6)
